@@ -47,6 +47,20 @@ type LeafDesc struct {
 	I   int64   `json:"i,omitempty"`
 	F   float64 `json:"f,omitempty"`
 	B   bool    `json:"b,omitempty"`
+	// composite leaves (C05): element / field / pointee descriptions and map keys
+	Elems []*LeafDesc `json:"elems,omitempty"`
+	Keys  []string    `json:"keys,omitempty"`
+	N     int         `json:"n,omitempty"` // pointer depth
+}
+
+func (l *LeafDesc) Clone() *LeafDesc {
+	c := *l
+	c.Keys = append([]string(nil), l.Keys...)
+	c.Elems = nil
+	for _, e := range l.Elems {
+		c.Elems = append(c.Elems, e.Clone())
+	}
+	return &c
 }
 
 func (l *LeafDesc) Build() any {
@@ -262,8 +276,7 @@ func (n *TNode) Walk(f func(*TNode)) {
 func (n *TNode) Clone() *TNode {
 	c := *n
 	if n.Leaf != nil {
-		l := *n.Leaf
-		c.Leaf = &l
+		c.Leaf = n.Leaf.Clone()
 	}
 	if n.Op != nil {
 		o := *n.Op
